@@ -139,11 +139,19 @@ def run(rep, tier):
         mrows = [t.split() for t in o[3:].split(' ; ')]
         for row, m in zip(rows, mrows):
             bad = compare_row(c, row, m)
+            if not bad:
+                ib = index_contradiction(c, row)
+                if ib:
+                    rep.violation(f'column-ne-definition:{ib[0]}', f'label {row["label"]}: {ib[1]}', dict(replay_of(c), label=row['label']))
+                    break
             if bad:
                 # decide with the direct numpy oracle whether the implementation contradicts the definition
                 orc = oracle_row(c, row['label'])
                 cbad = [k_ for k_ in bad if k_ in orc and not close(orc[k_], row_val(row, k_), rel=1e-9)]
-                if cbad:
+                ibad = index_contradiction(c, row) if ('minval_index' in bad or 'maxval_index' in bad) else None
+                if ibad and not cbad:
+                    rep.violation(f'column-ne-definition:{ibad[0]}', f'label {row["label"]}: {ibad[1]}', dict(replay_of(c), label=row['label']))
+                elif cbad:
                     rep.violation(f'column-ne-definition:{cbad[0]}',
                                   f'label {row["label"]}: {cbad[0]} = {row_val(row, cbad[0])} but the defining formula on the '
                                   f'unmasked finite segment pixels gives {orc[cbad[0]]}', dict(replay_of(c), label=row['label']))
@@ -200,6 +208,27 @@ def compare_row(c, row, m):
         if not close(vfloat(m[21]), row['bsum'], scale=10):
             bad.append('bsum')
     return bad
+
+
+def index_contradiction(c, row):
+    """(S) minval_index / maxval_index (image coordinates) must point at an unmasked finite pixel of the segment that carries the
+    minimum / maximum of those pixels"""
+    sel = c['seg'] == row['label']
+    good = sel & np.isfinite(c['data'])
+    if c['mask'] is not None:
+        good &= ~c['mask']
+    if not good.any():
+        return None
+    v = c['data'][good]
+    for nm, idx, ext in (('minval_index', row['mini'], float(v.min())), ('maxval_index', row['maxi'], float(v.max()))):
+        if any(math.isnan(float(t)) for t in idx):
+            return (nm, f'{nm} is NaN but the segment has unmasked finite pixels')
+        y, x = int(idx[0]), int(idx[1])
+        if not (0 <= y < c['ny'] and 0 <= x < c['nx']) or not good[y, x]:
+            return (nm, f'{nm} = ({y}, {x}) is not an unmasked finite pixel of the segment')
+        if float(c['data'][y, x]) != ext:
+            return (nm, f'{nm} = {tuple(int(t) for t in idx)} points at value {float(c["data"][y, x])} but the extreme value of the segment pixels is {ext}')
+    return None
 
 
 def oracle_row(c, lab):
